@@ -468,3 +468,107 @@ pub fn robust(data: &[u8]) -> Result<u32, String> {
     reached += 1;
     Ok(reached)
 }
+
+// ------------------------------------------------------------ fuzz entry points
+// Each takes raw fuzzer bytes, decodes them into the structured case of the
+// corresponding check and runs that check's oracle. Err = violation.
+
+pub fn fuzz_strip(data: &[u8]) -> Result<(), String> {
+    strip(data).map(|_| ())
+}
+
+pub fn fuzz_parser(data: &[u8]) -> Result<(), String> {
+    check_events(data)?;
+    if let Some((&sel, rest)) = data.split_first() {
+        // prefix . CAN|SUB . rest, split point chosen by the first byte
+        let split = if rest.is_empty() { 0 } else { sel as usize % (rest.len() + 1) };
+        let x = if sel & 0x80 != 0 { 0x1a } else { 0x18 };
+        check_cansub(&rest[..split], x, &rest[split..])?;
+        check_clone(rest, split)?;
+    }
+    Ok(())
+}
+
+pub fn fuzz_chunk(data: &[u8]) -> Result<(), String> {
+    let Some((&n, rest)) = data.split_first() else { return Ok(()) };
+    let n = (n % 9) as usize;
+    if rest.len() < n {
+        return Ok(());
+    }
+    let (fr, input) = rest.split_at(n);
+    if input.len() < 2 {
+        return check_cuts(input, &[]).map(|_| ());
+    }
+    let mut cuts: Vec<usize> = fr.iter().map(|f| 1 + (*f as usize * (input.len() - 1)) / 256).collect();
+    cuts.sort();
+    cuts.dedup();
+    check_cuts(input, &cuts).map(|_| ())
+}
+
+/// bytes -> list of text / SGR / other items of the C07 domain
+pub fn decode_sgr_items(data: &[u8]) -> Vec<vcore::gen::Item> {
+    use vcore::gen::{Group, Item};
+    let mut it = data.iter().copied();
+    let mut items = vec![];
+    let singles = vcore::gen::SGR_SINGLES;
+    let unknown = vcore::gen::SGR_UNKNOWN;
+    while let Some(op) = it.next() {
+        match op % 8 {
+            0 | 1 => {
+                let n = 1 + it.next().unwrap_or(0) as usize % 6;
+                let pool = ["a", "Z", "0", ";", "m", "[", " ", "é", "漢", "😀", "\u{301}", "\t", "\n", "\r"];
+                let s: String = (0..n).map(|_| pool[it.next().unwrap_or(0) as usize % pool.len()]).collect();
+                items.push(Item::Raw { class: "text", bytes: s.into_bytes() });
+            }
+            2 => {
+                let others: [&[u8]; 8] = [b"\x1b[2J", b"\x1b[>4;2m", b"\x1b[?25h", b"\x1b[1 m", b"\x1b]0;title\x07", b"\x1bPq#0\x1b\\", b"\x1b(B", b"\x1b_x\x1b\\"];
+                items.push(Item::Raw { class: "other-seq", bytes: others[it.next().unwrap_or(0) as usize % others.len()].to_vec() });
+            }
+            _ => {
+                let ng = 1 + it.next().unwrap_or(0) as usize % 5;
+                let mut groups = vec![];
+                let mut values = 0;
+                for _ in 0..ng {
+                    let k = it.next().unwrap_or(0);
+                    let a = it.next().unwrap_or(0);
+                    let target = [38u16, 48, 58][(k / 8) as usize % 3];
+                    let g = match k % 8 {
+                        0 | 1 | 2 => Group::Single { code: singles[a as usize % singles.len()], zeros: (k / 64) % 3 },
+                        3 => Group::Empty,
+                        4 => Group::Unknown(unknown[a as usize % unknown.len()]),
+                        5 => Group::Ul(a as u16 % 6),
+                        6 => Group::Idx { target, colon: k & 0x40 != 0, n: a as u16 },
+                        _ => Group::Rgb { target, colon: k & 0x40 != 0, r: a as u16, g: it.next().unwrap_or(0) as u16, b: it.next().unwrap_or(0) as u16 },
+                    };
+                    if values + g.values() > 32 {
+                        break;
+                    }
+                    values += g.values();
+                    groups.push(g);
+                }
+                if !groups.is_empty() {
+                    items.push(Item::Sgr(groups));
+                }
+            }
+        }
+    }
+    vcore::gen::drop_underline_replacements(&mut items);
+    items
+}
+
+pub fn fuzz_sgr(data: &[u8]) -> Result<(), String> {
+    let Some((&sel, rest)) = data.split_first() else { return Ok(()) };
+    let items = decode_sgr_items(rest);
+    let bytes = vcore::gen::render(&items);
+    let cuts: Vec<usize> = match sel % 4 {
+        0 => vec![],
+        1 => (1..bytes.len()).collect(),
+        2 => vcore::gen::interior_cuts(&bytes),
+        _ => (1..bytes.len()).filter(|i| (i * 7 + sel as usize) % 5 == 0).collect(),
+    };
+    check_stream(&bytes, &cuts)
+}
+
+pub fn fuzz_robust(data: &[u8]) -> Result<(), String> {
+    robust(data).map(|_| ())
+}
